@@ -5,17 +5,42 @@ sensitive tokens T and delimiters D, under every configuration that deviates in 
 place from "everything on", executed against the real Cleaner through three paths
 (clean_content, clean_file on a real file, TextFileProvider.write of a simple_file spec under a
 HostContext).  The oracle looks for *survivors* in the output after masking the substitutes the
-obfuscators themselves report in mapping().
+obfuscators themselves report in mapping() (DESIGN.md section 3 rule 5).
+
+Clauses
+  redaction:pattern-line-remains     an output line matches a configured exclusion pattern, or more lines remain
+                                     than input lines that match none (the oracle has its own matchers)
+  keyword:survives                   a configured keyword occurs in the output
+  password:secret-survives           the secret planted after a `password` key occurs in the output
+  obfuscation:ipv4-survives          a planted non-loopback IPv4 address occurs in the output
+  obfuscation:ipv4-unissued-address  the output holds an IPv4 address that is neither loopback nor a substitute
+                                     listed by mapping() (the statement says "no IPv4 address", not "no planted one")
+  obfuscation:hostname-survives      short / FQDN / other host of the domain occurs in the output
+  obfuscation:mac-survives           a planted non-trivial MAC delimited by non-word characters occurs in the output
+  obfuscation:survives-in-foreign-line   safety net (a planted text shows up in another line than its own)
+  exemption:not-honoured             a spec exempted for exactly that kind (no_redact / no_obfuscate member) came
+                                     out changed although the token stands isolated (neighbours are line boundary,
+                                     space, `,`, `[`, `]`, `"` - characters no recogniser looks at)
+  cleaning:raises                    the cleaner raised on a content of the alphabet
 
 What the oracle deliberately does not demand (DESIGN.md section 4, C08, "not demanded"):
-  * tokens glued to a preceding/following word character (the alphabet has no such line: d1 is
+  * tokens glued to a preceding/following word character (the alphabet has no such line: inner delimiters are
     never empty and no delimiter is a word character);
-  * leading-zero notations, upper-case spellings of the host name, secrets with characters
-    outside the documented class [a-zA-Z0-9_!@#$%^&*()+=/-] (not in the alphabet);
-  * a `password` key that lies inside the secret-class run that follows an earlier `password`
-    key (then it is part of the earlier secret, not a key): see _shadowed();
+  * leading-zero notations, upper-case spellings of the host name, secrets with characters outside the
+    documented class [a-zA-Z0-9_!@#$%^&*()+=/-] (not in the alphabet);
+  * a `password` key that lies inside the secret-class run that follows an earlier `password` key (then it is part
+    of the earlier secret, not a key): see _shadowed();
   * that loopback / all-zero / broadcast stay unchanged (the statement only exempts them);
+  * that a token of a switched-off or exempted kind stays unchanged when it is NOT isolated (a neighbouring
+    obfuscator may legitimately claim it: `10.1.1.1-db.corp.test` is one host label for the host-name pattern,
+    `password=S-AA-BB-CC-DD-EE-FF` is one secret);
   * anything about IPv6 (it is switched on by default only as a neighbour that could interfere).
+
+Defects of the unchanged tree this check reports (drafted in findings-draft/C08.json, narrow features):
+  * mac.py:29  a MAC directly preceded/followed by ':' or '-' is not recognised     features {"kind":"mac","adjacent":":"|"-"}
+  * hostname.py:99-105  `A ... A-B` / `A ... B-A` (A, B hosts of the domain): replacing the earlier, shorter match A
+    everywhere destroys the longer hyphen-compound match, B survives          features {"kind":"host","position":
+    "hyphen-compound-after-earlier-occurrence"}  (needs three tokens: thorough tier; the witness runs in every tier)
 """
 import itertools
 import os
@@ -32,11 +57,13 @@ RULE = ("every content of <= 2 lines, each line d0 t1 d1 t2 d2 [t3 d3] with t_i 
         "from everything-on, x path; a case is non-trivial when it holds >= 2 sensitive tokens and the cleaner "
         "actually rewrote or dropped something (output != input)")
 ASSUMPTIONS = [
-    "bounded: no counterexample with <= 2 (quick) / <= 3 (thorough) tokens per line, <= 2 lines, over the stated T and D",
+    "bounded: no counterexample with <= 2 (quick; 3 for host-name-only lines) / <= 3 (thorough) tokens per line, <= 2 lines, "
+    "over the stated T and D",
     "substitutes are taken from the obfuscators' own mapping() and masked before looking for survivors",
     "the write path is driven through a real SpecSet/RegistryPoint/simple_file + TextFileProvider.write under a "
     "HostContext rooted in a scratch directory; the dr engine and Hydration are not involved (C11 covers them)",
-    "per-case fresh Cleaner; obfuscator iteration order is whatever PYTHONHASHSEED=0 gives (order effects are C10)",
+    "per-case fresh Cleaner; the obfuscators run in the order the tree applies them (the sorted order since the C10 fix, "
+    "the PYTHONHASHSEED=0 set order before it - both trees were explored); order effects as such are C10's subject",
 ]
 
 FQDN = "web01.corp.test"
@@ -97,16 +124,23 @@ def configs():
 
 
 BOUNDS = {
-    "quick": {"tokens": NT, "configs": len(configs()), "D_default_pairs": D_RED, "D_deviation_pairs_outer": D_MIN,
-              "D_deviation_pairs_inner": D_RED[1:], "max_tokens_per_line": 2, "max_lines": 2,
-              "two_line_outer": [["", ""], [" ", ":"]],
-              "paths": "clean_content: everything; clean_file + provider write: all single-token lines (full D) x all "
-                       "configs, all pairs with d0=d2=line boundary (reduced D) x all configs, all two-line contents"},
-    "thorough": {"tokens": NT, "configs": len(configs()), "D_default_pairs": D_FULL, "D_deviation_pairs_outer": D_RED,
-                 "D_deviation_pairs_inner": D_FULL[1:], "D_triples": D_RED, "max_tokens_per_line": 3, "max_lines": 2,
-                 "two_line_outer": "D_MIN x D_MIN",
-                 "paths": "clean_content: everything; clean_file + provider write: single-token lines, pairs at the "
-                          "line boundaries (full D) x all configs, all two-line contents"},
+    "quick": {"tokens": NT, "configs": len(configs()), "max_tokens_per_line": "2 (3 on host-name-only lines)", "max_lines": 2,
+              "pairs_default_cfg": "d0,d2 in D_RED (6 incl. line boundary), d1 in D_RED minus boundary (5); clean_content",
+              "pairs_deviation_cfgs": "(d0,d2) in {boundary, space, ':'} diagonal, d1 in D_RED minus boundary; clean_content",
+              "singles_all_cfgs": "d0,d2 in full D (12) via clean_content; d0,d2 in D_RED via clean_file and provider write",
+              "pairs_file_paths": "d0=d2=line boundary, d1 in D_RED minus boundary (default cfg) / {space, ':'} (deviations); "
+                                  "clean_file and provider write",
+              "two_lines_default_cfg": "both lines single-token with (d0,d2) in {(boundary,boundary),(space,':')}; all three paths",
+              "host_triples_default_cfg": "4 host tokens ^3, outer {boundary, space, ':'}, inner {space, ':', '-'}; clean_content",
+              "D_RED": D_RED},
+    "thorough": {"tokens": NT, "configs": len(configs()), "max_tokens_per_line": 3, "max_lines": 2,
+                 "pairs_default_cfg": "d0,d2 in full D (12 incl. line boundary), d1 in full D minus boundary (11); clean_content",
+                 "pairs_deviation_cfgs": "d0,d2 in D_RED, d1 in full D minus boundary; clean_content",
+                 "singles_all_cfgs": "d0,d2 in full D via all three paths",
+                 "pairs_file_paths": "d0=d2=line boundary, d1 in full D minus boundary; clean_file and provider write; all cfgs",
+                 "two_lines_default_cfg": "both lines single-token with d0,d2 in {boundary, space, ':'}; all three paths",
+                 "triples_default_cfg": "all 25^3 token triples, d0,d3 in D_RED, d1,d2 in D_RED minus boundary; clean_content",
+                 "D_RED": D_RED, "D_FULL": D_FULL},
 }
 CAP_S = {"quick": 120, "thorough": 1500}
 
@@ -266,6 +300,36 @@ def _adjacent(text, s, e):
     return before, after
 
 
+def _is_domain_host(x):
+    return (not isinstance(x, str)) and x[0] == "host" and x[1].endswith("." + DOMAIN)
+
+
+def _explainable(st, ei, kind, before, after):
+    """Structural position (a fact about the INPUT line only) that a recorded defect of the tree explains; "" when
+    there is none.  Used as the narrow feature known findings match on, never to suppress anything here.
+      mac : the address is directly preceded / followed by ':' or '-'  -> that character (mac.py look-around)
+      host: the name is joined by '-' to a neighbouring host name of the domain whose text also stands earlier on
+            the same line -> "hyphen-compound-after-earlier-occurrence" (hostname.py replaces the earlier, shorter
+            match everywhere first, after which the longer compound match is no longer found in the line)"""
+    if kind == "mac":
+        if before in (":", "-"):
+            return before
+        if after in (":", "-"):
+            return after
+        return ""
+    if kind == "host" and _is_domain_host(st[ei]):
+        partners = []
+        if ei >= 2 and st[ei - 1] == "-" and _is_domain_host(st[ei - 2]):
+            partners.append(ei - 2)
+        if ei + 2 < len(st) and st[ei + 1] == "-" and _is_domain_host(st[ei + 2]):
+            partners.append(ei + 2)
+        for pi in partners:
+            for j in range(1, min(ei, pi), 2):
+                if not isinstance(st[j], str) and st[j][1] == st[pi][1] and st[j + 1] != "-":
+                    return "hyphen-compound-after-earlier-occurrence"
+    return ""
+
+
 def oracle(cfg, structs, in_lines, out_lines, cleaner):
     """-> (violations [(clause, expected, observed, features)], statuses per token)"""
     v = []
@@ -332,60 +396,107 @@ def oracle(cfg, structs, in_lines, out_lines, cleaner):
             v.append(("obfuscation:hostname-survives", "no host of the domain %s" % DOMAIN, raw,
                       {"kind": "host", "how": "partially-replaced"}))
 
-    # -- per planted token
+    # -- per planted token.  Survivors are counted in the output line that derives from the token's own input line
+    #    (when the line count is off - already reported above - in the whole output).  The same text may be planted
+    #    more than once in that scope, one occurrence well delimited and one in a position a recorded defect explains
+    #    (see _explainable): the survivors are attributed to the explainable occurrences FIRST, so that a survivor
+    #    count the recorded defect cannot explain is attributed to an ordinary occurrence and stays a violation.
     statuses = []
+    occs = []                                   # one record per planted token
     for li, st in enumerate(structs):
         text = in_lines[li]
-        oline = out_lines[kept.index(li)] if (aligned and li in kept) else None
         p = 0
         for ei, x in enumerate(st):
             if isinstance(x, str):
                 p += len(x)
                 continue
             kind, t = x[0], x[1]
-            s, e = p, p + len(t)
-            p = e
-            before, after = _adjacent(text, s, e)
-            delimited = before not in WORD and after not in WORD
-            needle = x[2] if kind == "pw" else t
-            if oline is None and li not in kept:
-                statuses.append(kind + "D")
+            before, after = _adjacent(text, p, p + len(t))
+            p += len(t)
+            if kind == "pw":
+                needle = x[2]
+            elif kind == "host" and cfg["fqdn"] == SHORT:
+                needle = SHORT if SHORT in t else None        # without a domain only the bare name is sensitive
             else:
-                statuses.append(kind + ("K" if needle in raw else "M"))
-            if not delimited:
-                continue
-            feats = {"kind": kind}
-            isolated = before in INERT and after in INERT
-            if kind == "ip":
-                if ip_on and t in masked:
-                    v.append(("obfuscation:ipv4-survives", "%s absent" % t, raw, feats))
-                elif "ip" in no_obf and isolated and oline is not None and t not in oline:
-                    v.append(("exemption:not-honoured", "%s unchanged (spec exempt from ip obfuscation)" % t, oline, feats))
-            elif kind == "host":
-                sens = t if cfg["fqdn"] != SHORT else SHORT
-                if hn_on and sens in masked:
-                    v.append(("obfuscation:hostname-survives", "%s absent" % sens, raw, feats))
-                elif "hostname" in no_obf and isolated and oline is not None and t not in oline:
-                    v.append(("exemption:not-honoured", "%s unchanged (spec exempt from hostname obfuscation)" % t, oline, feats))
-            elif kind == "mac":
-                if mac_on and t in masked:
-                    adj = before if before in (":", "-") else (after if after in (":", "-") else "none")
-                    v.append(("obfuscation:mac-survives", "%s absent" % t, raw, {"kind": "mac", "adjacent": adj}))
-                elif "mac" in no_obf and isolated and oline is not None and t not in oline:
-                    v.append(("exemption:not-honoured", "%s unchanged (spec exempt from mac obfuscation)" % t, oline, feats))
-            elif kind == "kw":
-                if not kw_on and isolated and oline is not None and t not in oline:
-                    v.append(("exemption:not-honoured", "%s unchanged (spec exempt from keyword replacement)" % t, oline, feats))
-            elif kind == "pw":
-                if pw_on:
-                    if x[2] in masked and not _shadowed(st, ei):
-                        v.append(("password:secret-survives", "secret %s masked" % x[2], raw, feats))
-                elif isolated and oline is not None and t not in oline:
-                    v.append(("exemption:not-honoured", "%s unchanged (spec exempt from password masking)" % t, oline, feats))
-            elif kind == "pat":
-                if not red_on and isolated and (oline is None or t not in oline):
-                    v.append(("exemption:not-honoured", "line with %s kept (spec exempt from redaction)" % t,
-                              oline if oline is not None else out_lines, feats))
+                needle = t
+            scope = kept.index(li) if (aligned and li in kept) else (None if not aligned else -1)
+            occs.append({"li": li, "ei": ei, "st": st, "kind": kind, "t": t, "needle": needle, "before": before,
+                         "after": after, "scope": scope, "why": _explainable(st, ei, kind, before, after)})
+
+    def scope_text(scope):
+        return masked if scope is None else ("" if scope == -1 else masked_lines[scope])
+
+    def count(needle, scope):
+        txt = scope_text(scope)
+        n = txt.count(needle)
+        if needle == SHORT and cfg["fqdn"] != SHORT:
+            n -= txt.count(FQDN)                # the bare name inside a surviving FQDN belongs to the FQDN token
+        return n
+
+    survivors = set()
+    groups = {}
+    for o in occs:
+        if o["needle"] is not None and o["kind"] in ("ip", "host", "mac", "pw"):
+            groups.setdefault((o["scope"], o["needle"]), []).append(o)
+    for (scope, needle), group in groups.items():
+        n = count(needle, scope)
+        if n <= 0:
+            continue
+        order = [o for o in group if o["why"]] + [o for o in group if not o["why"]]
+        for o in order[:max(n, 0)]:
+            survivors.add((o["li"], o["ei"]))
+
+    for o in occs:
+        li, ei, st, kind, t = o["li"], o["ei"], o["st"], o["kind"], o["t"]
+        before, after = o["before"], o["after"]
+        oline = out_lines[o["scope"]] if o["scope"] not in (None, -1) else None
+        if o["scope"] == -1:
+            statuses.append(kind + "D")
+        else:
+            statuses.append(kind + ("K" if (o["needle"] or t) in raw else "M"))
+        if before in WORD or after in WORD:
+            continue                            # glued to a word character: not demanded
+        feats = {"kind": kind}
+        isolated = before in INERT and after in INERT
+        alive = (li, ei) in survivors
+        if kind == "ip":
+            if ip_on and alive:
+                v.append(("obfuscation:ipv4-survives", "%s absent" % t, raw, feats))
+            elif "ip" in no_obf and isolated and oline is not None and t not in oline:
+                v.append(("exemption:not-honoured", "%s unchanged (spec exempt from ip obfuscation)" % t, oline, feats))
+        elif kind == "host":
+            if hn_on and alive:
+                v.append(("obfuscation:hostname-survives", "%s absent" % o["needle"], raw,
+                          {"kind": "host", "position": o["why"] or "ordinary"}))
+            elif "hostname" in no_obf and isolated and oline is not None and t not in oline:
+                v.append(("exemption:not-honoured", "%s unchanged (spec exempt from hostname obfuscation)" % t, oline, feats))
+        elif kind == "mac":
+            if mac_on and alive:
+                v.append(("obfuscation:mac-survives", "%s absent" % t, raw, {"kind": "mac", "adjacent": o["why"] or "none"}))
+            elif "mac" in no_obf and isolated and oline is not None and t not in oline:
+                v.append(("exemption:not-honoured", "%s unchanged (spec exempt from mac obfuscation)" % t, oline, feats))
+        elif kind == "kw":
+            if not kw_on and isolated and oline is not None and t not in oline:
+                v.append(("exemption:not-honoured", "%s unchanged (spec exempt from keyword replacement)" % t, oline, feats))
+        elif kind == "pw":
+            if pw_on:
+                if alive and not _shadowed(st, ei):
+                    v.append(("password:secret-survives", "secret %s masked" % o["needle"], raw, feats))
+            elif isolated and oline is not None and t not in oline:
+                v.append(("exemption:not-honoured", "%s unchanged (spec exempt from password masking)" % t, oline, feats))
+        elif kind == "pat":
+            if not red_on and isolated and (oline is None or t not in oline):
+                v.append(("exemption:not-honoured", "line with %s kept (spec exempt from redaction)" % t,
+                          oline if oline is not None else out_lines, feats))
+    # safety net: a planted sensitive text that survives somewhere else than in the line it was planted in
+    if aligned:
+        reported = set(o["needle"] for o in occs if (o["li"], o["ei"]) in survivors)
+        for o in occs:
+            k, n = o["kind"], o["needle"]
+            if ((k == "ip" and ip_on) or (k == "host" and hn_on) or (k == "mac" and mac_on)) and n and n not in reported \
+                    and count(n, None) > 0:
+                reported.add(n)
+                v.append(("obfuscation:survives-in-foreign-line", "%s absent" % n, raw, {"kind": k}))
     return v, statuses
 
 
@@ -418,11 +529,14 @@ def replay(case):
 # ---- enumeration -----------------------------------------------------------------------------
 
 def _pair_delims(tier, ci):
+    """-> (list of (d0, d2) outer pairs, list of inner delimiters) for the pair lines of configuration ci"""
     if tier == "quick":
-        outer, inner = (D_RED, D_RED[1:]) if ci == 0 else (D_MIN, D_RED[1:])
-    else:
-        outer, inner = (D_FULL, D_FULL[1:]) if ci == 0 else (D_RED, D_FULL[1:])
-    return outer, inner
+        if ci == 0:
+            return list(itertools.product(D_RED, D_RED)), D_RED[1:]
+        return [("", ""), (" ", " "), (":", ":")], D_RED[1:]       # single-token boundaries: see "singles" (full D)
+    if ci == 0:
+        return list(itertools.product(D_FULL, D_FULL)), D_FULL[1:]
+    return list(itertools.product(D_RED, D_RED)), D_FULL[1:]
 
 
 def _two_line_outer(tier):
@@ -433,8 +547,11 @@ def units(tier, seed):
     us = []
     ncfg = len(configs())
     for ci in range(ncfg):
-        for t1 in range(NT):
-            us.append({"part": "pairs", "cfg": ci, "t1": t1})
+        if tier == "quick" and ci:
+            us.append({"part": "pairs", "cfg": ci, "t1": list(range(NT))})      # small delimiter set: one unit
+        else:
+            for t1 in range(NT):
+                us.append({"part": "pairs", "cfg": ci, "t1": [t1]})
         us.append({"part": "singles", "cfg": ci})
         us.append({"part": "paths", "cfg": ci})
     nl = len(_two_line_outer(tier)) * NT
@@ -445,6 +562,10 @@ def units(tier, seed):
         for t1 in range(NT):
             for t2 in range(NT):
                 us.append({"part": "triples", "t1": t1, "t2": t2})
+    else:
+        # quick has no general triples; the host-name tokens alone are cheap and are where sequential textual
+        # replacement interferes with itself (thorough covers them inside "triples")
+        us.append({"part": "hosttriples"})
     return us
 
 
@@ -459,10 +580,12 @@ def run_unit(unit, tier):
     part = unit["part"]
     cfgs = configs()
     scratch = mkscratch("c08")
+    npath = {"content": 0, "file": 0, "write": 0}
     try:
         def go(path, cfg, structs):
             vio, nontrivial, outcome = execute(path, cfg, structs, scratch)
             res.evals += 1
+            npath[path] += 1
             if nontrivial:
                 res.nontrivial += 1
             res.outcomes.add(outcome)
@@ -472,24 +595,27 @@ def run_unit(unit, tier):
         if part == "pairs":
             cfg = cfgs[unit["cfg"]]
             outer, inner = _pair_delims(tier, unit["cfg"])
-            t1 = unit["t1"]
-            for t2 in range(NT):
-                for d0 in outer:
-                    for d1 in inner:
-                        for d2 in outer:
+            for t1 in unit["t1"]:
+                for t2 in range(NT):
+                    for d0, d2 in outer:
+                        for d1 in inner:
                             go("content", cfg, [mk_line([t1, t2], [d0, d1, d2])])
+            t1 = unit["t1"][0]
             res.samples.append({"path": "content", "cfg": cfg, "lines": [mk_line([t1, (t1 + 7) % NT], [" ", ":", ""])]})
         elif part == "singles":
             cfg = cfgs[unit["cfg"]]
             for t1 in range(NT):
                 for d0 in D_FULL:
                     for d2 in D_FULL:
-                        for path in ("content", "file", "write"):
-                            go(path, cfg, [mk_line([t1], [d0, d2])])
+                        st = [mk_line([t1], [d0, d2])]
+                        go("content", cfg, st)
+                        if tier == "thorough" or (d0 in D_RED and d2 in D_RED):
+                            go("file", cfg, st)
+                            go("write", cfg, st)
         elif part == "paths":
             # pairs at the line boundaries through the two file paths (the terminator is what differs there)
             cfg = cfgs[unit["cfg"]]
-            inner = D_RED[1:] if tier == "quick" else D_FULL[1:]
+            inner = D_FULL[1:] if tier == "thorough" else (D_RED[1:] if unit["cfg"] == 0 else [" ", ":"])
             for t1 in range(NT):
                 for t2 in range(NT):
                     for d1 in inner:
@@ -515,10 +641,25 @@ def run_unit(unit, tier):
                         for d2 in D_RED[1:]:
                             for d3 in D_RED:
                                 go("content", cfg, [mk_line([t1, t2, t3], [d0, d1, d2, d3])])
+        elif part == "hosttriples":
+            cfg = cfgs[0]
+            hosts = [i for i, t in enumerate(TOKENS) if t[0] == "host"]
+            for t1, t2, t3 in itertools.product(hosts, repeat=3):
+                for d0 in D_MIN:
+                    for d1 in (" ", ":", "-"):
+                        for d2 in (" ", ":", "-"):
+                            for d3 in D_MIN:
+                                go("content", cfg, [mk_line([t1, t2, t3], [d0, d1, d2, d3])])
         else:
             raise ValueError(part)
     finally:
         shutil.rmtree(scratch, ignore_errors=True)
+    for k, n in npath.items():
+        if n:
+            res.stat("cases_via_" + k, n)
+    res.stat("cases_in_" + part, res.evals)
+    res.maxi("tokens_per_line", {"singles": 1, "twolines": 1, "triples": 3, "hosttriples": 3}.get(part, 2))
+    res.maxi("lines_per_content", 2 if part == "twolines" else 1)
     return res
 
 
@@ -529,6 +670,6 @@ LEVEL_TEXT = ("Every line of <= 2 (quick) / <= 3 (thorough) sensitive tokens ove
               "host-name form away from everything-on, is cleaned by the real code through clean_content, clean_file and "
               "the provider write path, and the output is searched for survivors. No sampling; the claim is 'no survivor "
               "within the bound'.")
-LEVEL_NOTE = ("Trusted: the substitute lists of mapping() (their consistency is C09), PYTHONHASHSEED=0 obfuscator order (C10). "
+LEVEL_NOTE = ("Trusted: the substitute lists of mapping() (their consistency is C09), the tree's own obfuscator order (C10). "
               "Not demanded: tokens glued to word characters, leading zeros, upper-case host spellings, secrets outside the "
               "documented class, a password key inside an earlier secret run, IPv6.")
